@@ -207,7 +207,7 @@ PROPS = {
                    "after the command runs exactly once and its marker is the next element; every command statement invoked its handler exactly once with its "
                    "arguments. The whole binary runs under -race: any report is a violation. <<wait n>>: completion no earlier than n after the starting call. Search, not proof.",
         level_note="The harness owns the completion schedule, not the goroutine scheduler: for the two goroutine shapes the moment at which the bridge's goroutine delivers "
-                   "the result is not controlled (polling is bounded at 5000 polls). Time is only used as a lower bound (wait) or as a 10 s liveness limit in a situation "
+                   "the result is not controlled (polling is bounded at 100000 polls of 200 microseconds). Time is only used as a lower bound (wait) or as a 10 s liveness limit in a situation "
                    "made deterministic. When a channel is already filled on return, the starting Next may either go on or report waiting once (statement silent).",
         rule="1-5 commands x shape x polls in {0,1,2,3,4} x nil/error; non-trivial = at least one command pending for at least one poll; wait: a wait that was observed pending; "
              "distinct = distinct serialised cases.",
